@@ -498,6 +498,12 @@ func c04(r *core.Run) {
 						// the subject is split by a private helper that reports failure: every failing return
 						// of the helper must be one of those separator-missing edges
 						if cnd, succ := e.Norm(); true {
+							// strings.Cut(subject, sep): the not-found edge is the same refusal
+							if x, ok := cnd.(*ssa.Extract); ok && x.Index == 2 && succ == 1 {
+								if c2, ok := x.Tuple.(*ssa.Call); ok && core.CalleeName(c2) == "strings.Cut" {
+									refusal = "subject without the separator the subscription patterns guarantee (cannot be delivered by a conformant server)"
+								}
+							}
 							var hc *ssa.Call
 							idx := 0
 							switch x := cnd.(type) {
